@@ -49,10 +49,13 @@ class Oracle(TokOracle):
         ex.sub_explore(lambda e: G.run_spec(e, env, g.level, items), leaf)
 
 
-def make_jobs(tier, seed, build):
+GRAMMARS = C01_GRAMMARS
+
+
+def make_jobs(tier, seed, build, grammars=None):
     jobs = []
     nmax = 3 if tier == "quick" else 4
-    for gname in C01_GRAMMARS:
+    for gname in (grammars or GRAMMARS):
         g = CORPUS[gname]
         for n in range(0, nmax + 1):
             for shape in tok.all_shapes(n, g.decl):
